@@ -493,14 +493,33 @@ func genCase(r *Rng) caseIn {
 		ci.MinRate = "50000000000000000"
 	}
 	isVal := map[int]bool{}
+	// often start from existing validators with a high max rate, so that edits are live
+	if r.Chance(3, 5) {
+		for _, op := range []int{0, 1, 2, 3, idContract} {
+			if !r.Chance(2, 5) {
+				continue
+			}
+			rate := []string{"100000000000000000", "200000000000000000", "250000000000000000", "50000000000000000"}[r.Intn(4)]
+			cv := node{K: "create", Op: op, Rate: sp(rate), Max: one, Chg: []string{one, one, "100000000000000000"}[r.Intn(3)]}
+			if op == idContract {
+				ci.Txs = append(ci.Txs, txIn{Dt: 5, Signer: 0, Msgs: []node{{K: "wasm", G: 0, C: []node{cv}}}})
+			} else {
+				ci.Txs = append(ci.Txs, txIn{Dt: 5, Signer: op, Msgs: []node{cv}})
+			}
+			isVal[op] = true
+		}
+	}
 	ntx := r.Range(2, 7)
 	for i := 0; i < ntx; i++ {
 		signer := r.Intn(nUsers)
 		if r.Chance(1, 2) {
 			signer = 0 // the contract owner: wasm paths need it
 		}
-		dts := []int{5, 5, 3600, 86399, 86400, 90000, 43200}
+		dts := []int{5, 5, 3600, 86399, 86400, 90000, 43200, 86400, 172800}
 		tx := txIn{Dt: dts[r.Intn(len(dts))], Signer: signer}
+		if r.Chance(1, 20) {
+			tx.Ext = []string{"evm", "other"}[r.Intn(2)]
+		}
 		var needs []grantNeed
 		nm := r.Pick(8, 2, 1) + 1
 		for j := 0; j < nm; j++ {
@@ -566,6 +585,9 @@ func openers() []caseIn {
 		// wasm edit
 		{Txs: []txIn{{Dt: 5, Signer: 0, Msgs: []node{wa(cv(idContract, "100000000000000000"))}},
 			{Dt: 90000, Signer: 0, Msgs: []node{wa(node{K: "edit", Op: idContract, Rate: sp("500000000000000000")})}}}},
+		// extension options: the EVM chain admits MsgEthereumTx only, unknown options are rejected
+		{Txs: []txIn{{Dt: 5, Ext: "evm", Signer: 1, Msgs: []node{cv(1, r90)}}, {Dt: 5, Ext: "evm", Signer: 1, Msgs: []node{ex(1, cv(1, r25))}},
+			{Dt: 5, Ext: "other", Signer: 1, Msgs: []node{cv(1, r25)}}, {Dt: 5, Signer: 1, Msgs: []node{cv(1, r25)}}}},
 		// grant-based exec by another account
 		{Txs: []txIn{{Dt: 5, Signer: 1, Msgs: []node{{K: "grant", From: 1, To: 2, T: "create"}}},
 			{Dt: 5, Signer: 2, Msgs: []node{ex(2, cv(1, r90))}}, {Dt: 5, Signer: 2, Msgs: []node{ex(2, cv(1, r25))}}}},
